@@ -4,7 +4,11 @@ package main
 import (
 	"bytes"
 	"fmt"
+	"hash/adler32"
+	"hash/crc32"
+	"hash/fnv"
 	"math"
+	"sort"
 
 	"gitlab.com/gomidi/midi/v2"
 	cp "gitlab.com/gomidi/midi/v2/internal/verifh/concpairs"
@@ -404,6 +408,77 @@ func smpteProduct(part, parts int) {
 	ctx.Add("smpte_tuples", n)
 }
 
+// collisions: pairs of different texts of one length that a summary cannot
+// tell apart - equal under the usual 32-bit string hashes (FNV-1 and FNV-1a,
+// CRC-32 in two polynomials, Adler-32, djb2, sdbm, the multiply-by-31 hash),
+// found here by a birthday search over lower-case texts of 8 and of 16 bytes -
+// built and read one after the other in both orders, with every text kind and
+// as sequencer data (an accessor or constructor that caches by such a sum
+// hands out the other text).
+func collisions() {
+	type h32 func([]byte) uint32
+	poly := func(mul uint32, init uint32) h32 {
+		return func(b []byte) uint32 {
+			h := init
+			for _, c := range b {
+				h = h*mul + uint32(c)
+			}
+			return h
+		}
+	}
+	hashes := map[string]h32{
+		"fnv1a":          func(b []byte) uint32 { h := fnv.New32a(); h.Write(b); return h.Sum32() },
+		"fnv1":           func(b []byte) uint32 { h := fnv.New32(); h.Write(b); return h.Sum32() },
+		"crc32":          crc32.ChecksumIEEE,
+		"crc32c":         func(b []byte) uint32 { return crc32.Checksum(b, crc32.MakeTable(crc32.Castagnoli)) },
+		"adler32":        adler32.Checksum,
+		"djb2":           poly(33, 5381),
+		"sdbm":           poly(65599, 0),
+		"java":           poly(31, 0),
+		"fnv1a64-folded": func(b []byte) uint32 { h := fnv.New64a(); h.Write(b); v := h.Sum64(); return uint32(v) ^ uint32(v>>32) },
+	}
+	var names []string
+	for n := range hashes {
+		names = append(names, n)
+	}
+	sort.Strings(names)
+	for _, name := range names {
+		h := hashes[name]
+		for _, ln := range []int{8, 16} {
+			seen := map[uint32][]byte{}
+			found := 0
+			buf := make([]byte, ln)
+			for i := 0; i < 1000000 && found < 2; i++ {
+				x := uint64(i)*0x9E3779B97F4A7C15 + 0x1234567
+				for k := range buf {
+					// splitmix64 step per character
+					x += 0x9E3779B97F4A7C15
+					z := x
+					z = (z ^ (z >> 30)) * 0xBF58476D1CE4E5B9
+					z = (z ^ (z >> 27)) * 0x94D049BB133111EB
+					z ^= z >> 31
+					buf[k] = 'a' + byte(z%26)
+				}
+				v := h(buf)
+				if prev, ok := seen[v]; ok && string(prev) != string(buf) {
+					found++
+					a, b := prev, append([]byte(nil), buf...)
+					for _, order := range [][2][]byte{{a, b}, {b, a}} {
+						judgePayload(order[0], "texts equal under "+name+": "+string(order[0]))
+						judgePayload(order[1], "texts equal under "+name+": "+string(order[1])+" (read after "+string(order[0])+")")
+					}
+					ctx.Add("collision_pairs", 1)
+					continue
+				}
+				seen[v] = append([]byte(nil), buf...)
+			}
+			if found == 0 && name != "adler32" {
+				ctx.Guard(false, "no %s collision among a million texts of %d bytes", name, ln)
+			}
+		}
+	}
+}
+
 func timeSigs(part, parts int) {
 	cl := []int{1, 8, 24, 255}
 	if ctx.Thorough() {
@@ -518,6 +593,12 @@ func keys() {
 				if !ok || int(k) != tonic || int(n) != num || isMaj != major || (num > 0 && isFlat != flat) {
 					report("accessor:MetaKey", "MetaKey", args, m, fmt.Sprintf("got tonic=%d num=%d major=%v flat=%v ok=%v, circle of fifths gives tonic %d", k, n, isMaj, isFlat, ok, tonic))
 				}
+				// the same through the other accessor (the key as a value)
+				var kv smf.Key
+				ok2 := m.GetMetaKey(&kv)
+				if !ok2 || int(kv.Key) != tonic || int(kv.Num) != num || kv.IsMajor != major || (num > 0 && kv.IsFlat != flat) {
+					report("accessor:MetaKey:GetMetaKey", "MetaKey", args, m, fmt.Sprintf("GetMetaKey gives %+v (ok=%v), built with tonic %d num %d major %v flat %v", kv, ok2, tonic, num, major, flat))
+				}
 				ctx.NontrivialN(1)
 			}
 		}
@@ -571,7 +652,7 @@ func main() {
 	ctx.Assume("a zero time-signature clock argument is the documented shorthand for 8, each argument on its own; flat/sharp flag not judged for 0 accidentals; tempo payload within 1 of the 24-bit value")
 	ctx.Jobs("texts", 16, func(j int) { texts(j, 16) })
 	ctx.Jobs("numeric", 1, func(int) { numeric(); reuse(); nested() })
-	ctx.Jobs("huge", 1, func(int) { huge() })
+	ctx.Jobs("huge", 1, func(int) { huge(); collisions() })
 	ctx.Jobs("timesig", 16, func(j int) { timeSigs(j, 16) })
 	ctx.Jobs("smpte", 16, func(j int) { smpteProduct(j, 16) })
 	ctx.Jobs("keys", 1, func(int) { keys(); nilMasks(); ownership() })
